@@ -316,6 +316,13 @@ def v_cons_item3(spec, rng):      # an item that is a 3-tuple
 def v_cons_itemint(spec, rng):    # an item that is neither a node name nor a tuple
     spec["cons"].append([5]); return True
 
+def v_cons_edgelist_int(spec, rng):      # node mode: a constraint given as a list of edges with a non-iterable item
+    if spec["origin"] != "node":
+        return False
+    (u, v, _) = rng.choice(spec["edges"])
+    spec["cons"] = [[(u, v), 5]] + [c for c in spec["cons"] if c and isinstance(c[0], tuple)]
+    return True
+
 def v_cov0(spec, rng):   spec["cov"] = 0; return True
 def v_covneg(spec, rng): spec["cov"] = -0.5; return True
 def v_covbig(spec, rng): spec["cov"] = 1.5; return True
@@ -335,7 +342,7 @@ def v_ign_absent_node(spec, rng):
 
 VIOL = {"nonstr": v_nonstr, "cycle": v_cycle, "nosource": v_nosource, "nosink": v_nosink, "neg": v_neg,
         "missing": v_missing, "noncons": v_noncons, "cons_absent": v_cons_absent, "cons_tuple": v_cons_tuple,
-        "cons_empty": v_cons_empty, "cons_item3": v_cons_item3, "cons_itemint": v_cons_itemint,
+        "cons_empty": v_cons_empty, "cons_item3": v_cons_item3, "cons_itemint": v_cons_itemint, "cons_edgelist_int": v_cons_edgelist_int,
         "cov0": v_cov0, "covneg": v_covneg, "covbig": v_covbig, "k0": v_k0, "kneg": v_kneg, "kfloat": v_kfloat,
         "kfloatint": v_kfloatint, "wtype": v_wtype, "origin": v_origin, "start": v_start, "end": v_end,
         "ign_malformed": v_ign_malformed, "ign_absent_node": v_ign_absent_node}
@@ -347,7 +354,7 @@ def violations_for(cls):
     if cls in IS_CYC: vs += ["nosource", "nosink"]
     if cls in HAS_WEIGHTS: vs += ["neg", "missing"]
     if cls in IS_FD: vs.append("noncons")
-    if cls in HAS_CONS: vs += ["cons_absent", "cons_tuple", "cons_empty", "cons_item3", "cons_itemint", "cov0", "covneg", "covbig"]
+    if cls in HAS_CONS: vs += ["cons_absent", "cons_tuple", "cons_empty", "cons_item3", "cons_itemint", "cons_edgelist_int", "cov0", "covneg", "covbig"]
     if cls in HAS_K: vs += ["k0", "kneg", "kfloat", "kfloatint"]
     if cls in HAS_WTYPE: vs.append("wtype")
     if cls in HAS_ORIGIN: vs += ["origin", "ign_malformed", "ign_absent_node"]
